@@ -222,6 +222,19 @@ func (fr *frame) deepEq(t types.Type, a, b value, depth int) *Term {
 			return timeEq(a.(structure)[0], b.(structure)[0])
 		}
 	}
+	if pkg, name := typeName(t); pkg == "k8s.io/apimachinery/pkg/api/resource" && name == "Quantity" {
+		if _, isPtr := t.(*types.Pointer); !isPtr {
+			// Semantic equality of quantities: a.Cmp(b) == 0, through the interpreted method
+			fn := fr.i.prog.LookupMethod(types.NewPointer(t), nil, "Cmp")
+			if fn == nil {
+				panic(engineAbort{"ENGINE", "resource.Quantity.Cmp not found"})
+			}
+			var cell value = a
+			r := call(fr.i, fr, 0, fn, []value{&cell, b})
+			tr, _, _ := termOf(r)
+			return mkEq(tr, mkInt(0))
+		}
+	}
 	switch u := t.Underlying().(type) {
 	case *types.Basic:
 		return symEquals(t, a, b)
